@@ -1066,6 +1066,14 @@ class DecoderScannerMachine(ScannerMachine):
         raise Unsupported('decoder index arithmetic ' + op)
 
     def binop(self, op, a, b):
+        # the range length (end - start) is never negative
+        for x, y, sw in ((a, b, False), (b, a, True)):
+            if x == ('len',) and isinstance(y, int) and not isinstance(y, (Byte, bool)) and op in ('<', '<=', '>', '>=', '==', '!='):
+                o = {'<': '>', '<=': '>=', '>': '<', '>=': '<='}.get(op, op) if sw else op
+                if y < 0: return int({'<': False, '<=': False, '>': True, '>=': True, '==': False, '!=': True}[o])
+                if y == 0 and o == '<': return 0
+                if y == 0 and o == '>=': return 1
+                raise Unsupported('the range length compared with a non-negative constant')
         # (end - start) compared with index + k  is  end compared with start + index + k
         if a == ('len',) and isinstance(b, Ptr) and isinstance(b.base, tuple) and op in ('==', '!='): return self.binop(op, b, Ptr('end', 0))
         if isinstance(a, Ptr) and isinstance(a.base, tuple) and b == ('len',) and op in ('==', '!='): return self.binop(op, a, Ptr('end', 0))
